@@ -362,7 +362,9 @@ func (g *G) addDependent(bs *schema.BlockSchema, depth int) {
 		bs.DependentBody[k.Key] = body
 		info.Keys = append(info.Keys, k)
 		// second level keyed by an attribute of the first level body
-		if g.coin(0.3) {
+		// (the second-level key is made of the labels and the key attributes of
+		// the first-level body, so only label-keyed first levels get one)
+		if len(dk.Attributes) == 0 && g.coin(0.45) {
 			kind := g.pick(3)
 			name := g.id("key2_")
 			body.Attributes[name] = g.depKeyAttr(kind)
